@@ -71,6 +71,7 @@ class Sched:
         self.nproc = 0
         self.failed = None          # Deadlock / StepCap raised in main
         self.draining = False
+        self.timers = []            # absolute virtual times at which something becomes true without a task acting (process exit latency)
         self.join_timeouts = 0
         self.time_in_join = 0.0
         self.stats = {'switches': 0, 'transfers': 0, 'clock_jumps': 0, 'line_yields': 0}
@@ -129,6 +130,10 @@ class Sched:
             finally:
                 sys.settrace(None)
             t.done = True
+            t.done_at = sched.now
+            d = sched.params.get('exit_delays', {}).get(t.name)
+            if d:
+                sched.timers.append(sched.now + d)
             sched.ctx.log('sched', 'task-done', t.name)
             sched._switch_from(t, finished=True)
         t.thread = _realthreading.Thread(target=body, name='dfsim-' + name, daemon=True)
@@ -166,6 +171,7 @@ class Sched:
                 break
             deadlines = [t.blocked[1] for t in self.tasks
                          if not t.done and not t.killed and t.started and t.blocked is not None and t.blocked[1] is not None]
+            deadlines += [x for x in self.timers if x > self.now]
             if not deadlines:
                 return None
             nxt = min(deadlines)
@@ -503,7 +509,13 @@ class SimProcess:
 
     def _exited(self):
         t = self.task
-        return t is not None and (t.killed or (t.done and self.s.proc_drained(self._proc)))
+        if t is None:
+            return False
+        if t.killed:
+            return True
+        # exit latency: a real process needs some time between its function returning and the OS reporting it dead
+        delay = self.s.params.get('exit_delays', {}).get(t.name, 0)
+        return t.done and self.s.proc_drained(self._proc) and self.s.now >= getattr(t, 'done_at', 0) + delay
 
     def join(self, timeout=None):
         s = self.s
